@@ -193,6 +193,26 @@ fn random_case(rng: &mut Rng) -> Vec<String> {
     let big = rng.chance(2, 3);
     let len = rng.range(1, if big { 40 } else { 12 });
     let mut ops = Vec::new();
+    if big && rng.chance(1, 4) {
+        // a map that has outgrown the inline buffer (more than 10 entries), then overwrites of its largest and other keys
+        // with larger and smaller values, removals and re-insertions
+        let all: Vec<u32> = (0..10u32).map(|i| i * 4).chain((0..4u32).map(|i| i * 4 + 2)).collect();
+        let n = rng.range(11, 14);
+        let mut ks = all.clone();
+        rng.shuffle(&mut ks);
+        ks.truncate(n);
+        let r = rng.below(4);
+        ops.push(format!("idn {r} {}", ks.iter().map(|x| x.to_string()).collect::<Vec<_>>().join(" ")));
+        let mut sorted = ks.clone();
+        sorted.sort();
+        for _ in 0..rng.range(2, 6) {
+            let k = if rng.chance(1, 2) { *sorted.last().unwrap() } else { sorted[rng.below(sorted.len())] };
+            match rng.below(4) {
+                0 => ops.push(format!("rem {r} {k}")),
+                _ => ops.push(format!("ins {r} {k} {}", all[rng.below(all.len())])),
+            }
+        }
+    }
     for _ in 0..len {
         let r = rng.below(4);
         let r2 = rng.below(4);
